@@ -206,54 +206,63 @@ Definition linearizable {Ob} (sstep : Ob -> nat -> op -> option (Ob * nat)) (o0 
 
 (* ------------------------------------------------------------------ Pool (history monitor)
    events: KInv 0 b=now (Get) | KRet 0 a=id b=now | KInv 1 a=id b=now (Put) | KRet 1 b=now
-           | KBegin 3 a=id (create callback; c=1: it panicked, no id) | KEnd 3 a=id (destroy callback;
-           c=1: it panicked) | KRet 0 c=2: Get ended with a callback's panic.
+           | KBegin 3 c=2 (the create callback starts) | KBegin 3 a=id c=0 (it returns resource id)
+           | KBegin 3 c=1 (it panicked, no resource) | KEnd 3 a=id (destroy callback; c=1: it panicked)
+           | KRet 0 c=2: Get ended with a callback's panic.
    status of a resource id: 1 created, not yet returned by a Get | 2 held | 3 idle, put finished at
    time b | 4 idle, put still in progress | 5 destroyed.
-   Contract: creates - destroys <= limit at all times; a Get never returns a resource that is held
+   Contract: live resources (created - destroyed) PLUS resources whose create callback is still
+   running never exceed limit; a Get never returns a resource that is held
    or destroyed; an idle resource whose Put had finished more than maxAge before the Get was even
    invoked is never handed out; only idle resources are destroyed. *)
 Record pool_mon := mkpm { pm_live : nat; pm_st : list (nat * (nat * nat)); pm_getinv : list (nat * nat);
-                          pm_pput : list (nat * nat) }.
-Definition pool_mon0 : pool_mon := mkpm 0 [] [] [].
+                          pm_pput : list (nat * nat); pm_inprog : nat (* create callbacks that have started and not ended *) }.
+Definition pool_mon0 : pool_mon := mkpm 0 [] [] [] 0.
 
 Definition pool_mon_step (limit maxage : nat) (m : pool_mon) (e : ev) : option pool_mon :=
   let t := e_t e in
   let st := pm_st m in
   match e_k e, e_op e with
   | KBegin, _ =>
-      if Nat.eqb (e_c e) 1 then Some m else   (* the create callback panicked: no resource came into being *)
-      match alookup Nat.eqb (e_a e) st with
-      | None => if Nat.leb (S (pm_live m)) limit
-                then Some (mkpm (S (pm_live m)) (aset Nat.eqb (e_a e) (1, 0) st) (pm_getinv m) (pm_pput m)) else None
-      | Some _ => None
+      match e_c e with
+      | 2 => (* a create callback starts: the resource it is making already counts *)
+          if Nat.leb (S (pm_live m + pm_inprog m)) limit
+          then Some (mkpm (pm_live m) st (pm_getinv m) (pm_pput m) (S (pm_inprog m))) else None
+      | 1 => (* it panicked: no resource came into being *)
+          Some (mkpm (pm_live m) st (pm_getinv m) (pm_pput m) (pm_inprog m - 1))
+      | _ => (* it returned resource a *)
+          match alookup Nat.eqb (e_a e) st with
+          | None => if Nat.leb (S (pm_live m + (pm_inprog m - 1))) limit
+                    then Some (mkpm (S (pm_live m)) (aset Nat.eqb (e_a e) (1, 0) st) (pm_getinv m) (pm_pput m) (pm_inprog m - 1)) else None
+          | Some _ => None
+          end
       end
   | KEnd, _ =>
       match alookup Nat.eqb (e_a e) st with
-      | Some (3, _) | Some (4, _) => Some (mkpm (pm_live m - 1) (aset Nat.eqb (e_a e) (5, 0) st) (pm_getinv m) (pm_pput m))
+      | Some (3, _) | Some (4, _) => Some (mkpm (pm_live m - 1) (aset Nat.eqb (e_a e) (5, 0) st) (pm_getinv m) (pm_pput m) (pm_inprog m))
       | _ => None
       end
-  | KInv, 0 => Some (mkpm (pm_live m) st (aset Nat.eqb t (e_b e) (pm_getinv m)) (pm_pput m))
+  | KInv, 0 => Some (mkpm (pm_live m) st (aset Nat.eqb t (e_b e) (pm_getinv m)) (pm_pput m) (pm_inprog m))
   | KRet, 0 =>
       if Nat.eqb (e_c e) 2 then Some m else   (* Get was unwound by a panicking callback: nothing handed out *)
       match alookup Nat.eqb (e_a e) st, alookup Nat.eqb t (pm_getinv m) with
       | Some (1, _), Some _ | Some (4, _), Some _ =>
-          Some (mkpm (pm_live m) (aset Nat.eqb (e_a e) (2, t) st) (pm_getinv m) (pm_pput m))
+          Some (mkpm (pm_live m) (aset Nat.eqb (e_a e) (2, t) st) (pm_getinv m) (pm_pput m) (pm_inprog m))
       | Some (3, p), Some gi =>
           if Nat.ltb 0 maxage && Nat.ltb (p + maxage) gi then None
-          else Some (mkpm (pm_live m) (aset Nat.eqb (e_a e) (2, t) st) (pm_getinv m) (pm_pput m))
+          else Some (mkpm (pm_live m) (aset Nat.eqb (e_a e) (2, t) st) (pm_getinv m) (pm_pput m) (pm_inprog m))
       | _, _ => None
       end
   | KInv, _ =>
       match alookup Nat.eqb (e_a e) st with
-      | Some (2, _) => Some (mkpm (pm_live m) (aset Nat.eqb (e_a e) (4, 0) st) (pm_getinv m) (aset Nat.eqb t (e_a e) (pm_pput m)))
+      | Some (2, _) => Some (mkpm (pm_live m) (aset Nat.eqb (e_a e) (4, 0) st) (pm_getinv m) (aset Nat.eqb t (e_a e) (pm_pput m)) (pm_inprog m))
       | _ => None   (* the driver only puts what is held *)
       end
   | KRet, _ =>
       match alookup Nat.eqb t (pm_pput m) with
       | Some id =>
           match alookup Nat.eqb id st with
-          | Some (4, _) => Some (mkpm (pm_live m) (aset Nat.eqb id (3, e_b e) st) (pm_getinv m) (pm_pput m))
+          | Some (4, _) => Some (mkpm (pm_live m) (aset Nat.eqb id (3, e_b e) st) (pm_getinv m) (pm_pput m) (pm_inprog m))
           | _ => Some m   (* already taken again (or destroyed) by somebody else *)
           end
       | None => None
@@ -264,15 +273,15 @@ Definition pool_accepts (limit maxage : nat) (h : list ev) : bool := accepts (po
 
 (* ------------------------------------------------------------------ ResourceManager (history monitor)
    events: KInv 0 a=key (Get) | KBegin 0 a=key (create starts) | KEnd 0 a=key b=id c=1 if it failed
-           | KRet 0 a=key b=id c=0 ok / 1 error / 2 panic | KInv 1 (Close) | KEnd 1 a=id (a resource's
-           Close ran) | KRet 1.
+           | KRet 0 a=key b=id c=0 ok / 1 error / 2 panic | KInv 1 (Close) | KEnd 1 a=id c=1 if it failed (a
+           resource's Close ran) | KRet 1 a=1 if Close reports an error.
    Contract (while the manager is open): creates of one key never overlap; after a successful
    create of a key there is no further create of it; every successful Get of the key returns that
    resource; when Close returns, every resource created before Close was invoked has been closed
    exactly once. *)
 Record rm_mon := mkrm { rm_creating : list nat; rm_made : list (nat * nat); rm_closed_ids : list nat;
-                        rm_toclose : list nat; rm_closing : bool }.
-Definition rm_mon0 : rm_mon := mkrm [] [] [] [] false.
+                        rm_toclose : list nat; rm_closing : bool; rm_errs : nat (* resource Close calls that returned an error *) }.
+Definition rm_mon0 : rm_mon := mkrm [] [] [] [] false 0.
 
 Fixpoint remove_one (k : nat) (l : list nat) : list nat :=
   match l with [] => [] | a :: r => if Nat.eqb a k then r else a :: remove_one k r end.
@@ -283,19 +292,25 @@ Definition rm_mon_step (m : rm_mon) (e : ev) : option rm_mon :=
   | KBegin, _ =>
       if rm_closing m then Some m
       else if existsb (Nat.eqb (e_a e)) (rm_creating m) || existsb (fun kv => Nat.eqb (fst kv) (e_a e)) (rm_made m) then None
-      else Some (mkrm (e_a e :: rm_creating m) (rm_made m) (rm_closed_ids m) (rm_toclose m) false)
+      else Some (mkrm (e_a e :: rm_creating m) (rm_made m) (rm_closed_ids m) (rm_toclose m) false (rm_errs m))
   | KEnd, 0 =>
       Some (mkrm (remove_one (e_a e) (rm_creating m))
                  (if Nat.eqb (e_c e) 0 then (e_a e, e_b e) :: rm_made m else rm_made m)
-                 (rm_closed_ids m) (rm_toclose m) (rm_closing m))
+                 (rm_closed_ids m) (rm_toclose m) (rm_closing m) (rm_errs m))
   | KRet, 0 =>
       if Nat.eqb (e_c e) 0
       then if existsb (fun kv => Nat.eqb (fst kv) (e_a e) && Nat.eqb (snd kv) (e_b e)) (rm_made m) then Some m else None
       else Some m
-  | KInv, _ => Some (mkrm (rm_creating m) (rm_made m) (rm_closed_ids m) (map snd (rm_made m)) true)
-  | KEnd, _ => Some (mkrm (rm_creating m) (rm_made m) (e_a e :: rm_closed_ids m) (rm_toclose m) (rm_closing m))
+  | KInv, _ => Some (mkrm (rm_creating m) (rm_made m) (rm_closed_ids m) (map snd (rm_made m)) true (rm_errs m))
+  | KEnd, _ => (* a resource's Close ran; c = 1: it returned an error *)
+      Some (mkrm (rm_creating m) (rm_made m) (e_a e :: rm_closed_ids m) (rm_toclose m) (rm_closing m)
+                 (if Nat.eqb (e_c e) 0 then rm_errs m else S (rm_errs m)))
   | KRet, _ =>
-      if forallb (fun id => Nat.eqb (count_occ_b (Nat.eqb id) (rm_closed_ids m)) 1) (rm_toclose m) then Some m else None
+      (* every resource made before Close was invoked has been closed exactly once -- also when some
+         of them failed to close -- and Close reports an error (a = 1) iff one of them failed *)
+      if forallb (fun id => Nat.eqb (count_occ_b (Nat.eqb id) (rm_closed_ids m)) 1) (rm_toclose m) &&
+         Nat.eqb (e_a e) (if Nat.ltb 0 (rm_errs m) then 1 else 0)
+      then Some m else None
   end.
 
 Definition rm_accepts (h : list ev) : bool := accepts rm_mon_step rm_mon0 h.
